@@ -286,6 +286,93 @@ func c18svcPointOK(svc, label, pub string) bool {
 	return c18pointOK(s.String(), pub)
 }
 
+// c18badList: the key texts of a file that kyber rejects as points of the suite they are used with
+// (hex, sorted, "-" for none); false when one text gets both verdicts or the TOML library rejects the text
+func c18badList(verdicts map[string]bool, conflict bool) (string, bool) {
+	if conflict {
+		return "", false
+	}
+	var l []string
+	for t, ok := range verdicts {
+		if !ok {
+			l = append(l, c18hex(t))
+		}
+	}
+	if len(l) == 0 {
+		return "-", true
+	}
+	sort.Strings(l)
+	return strings.Join(l, ","), true
+}
+
+// c18ambiguous: the reader refuses the text because two keys differ only in case - then no key text is
+// ever looked at (and what the TOML library decodes from such a text changes from call to call)
+func c18ambiguous(text string, private bool) (amb bool) {
+	defer func() { recover() }()
+	var err error
+	if private {
+		f, e := ioutil.TempFile("", "c18amb")
+		if e != nil {
+			return false
+		}
+		f.WriteString(text)
+		f.Close()
+		defer os.Remove(f.Name())
+		_, err = app.LoadCothority(f.Name())
+	} else {
+		_, err = app.ReadGroupDescToml(strings.NewReader(text))
+	}
+	return err != nil && strings.Contains(err.Error(), "differ only in case")
+}
+
+func c18badGroup(text string) (string, bool) {
+	gt := &app.GroupToml{}
+	if _, err := toml.Decode(text, gt); err != nil {
+		return "-", true // the reader fails before any key is looked at
+	}
+	if c18ambiguous(text, false) {
+		return "-", true
+	}
+	v := map[string]bool{}
+	conflict := false
+	note := func(t string, ok bool) {
+		if old, seen := v[t]; seen && old != ok {
+			conflict = true
+		}
+		v[t] = ok
+	}
+	for _, s := range gt.Servers {
+		note(s.Public, c18pointOK(s.Suite, s.Public))
+		for n, sc := range s.Services {
+			note(sc.Public, c18svcPointOK(n, sc.Suite, sc.Public))
+		}
+	}
+	return c18badList(v, conflict)
+}
+
+func c18badPrivate(text string) (string, bool) {
+	hc := &app.CothorityConfig{}
+	if _, err := toml.Decode(text, hc); err != nil {
+		return "-", true
+	}
+	if c18ambiguous(text, true) {
+		return "-", true
+	}
+	v := map[string]bool{}
+	conflict := false
+	note := func(t string, ok bool) {
+		if old, seen := v[t]; seen && old != ok {
+			conflict = true
+		}
+		v[t] = ok
+	}
+	note(hc.Public, c18pointOK(hc.Suite, hc.Public))
+	for n, sc := range hc.Services {
+		note(sc.Public, c18svcPointOK(n, sc.Suite, sc.Public))
+	}
+	return c18badList(v, conflict)
+}
+
 // ops describing a decoded group file
 func c18groupOps(text string) ([]string, bool) {
 	gt := &app.GroupToml{}
@@ -628,6 +715,167 @@ func c18exec(c *h.Ctx, cs *h.Case) {
 			lastSaved = file2 // kept for `reload`
 			obs = second
 			outs = append(outs, "resave-"+tk[2]+":"+c18class(second))
+		case len(tk) == 5 && (tk[1] == "readtext" || tk[1] == "readprivtext"):
+			// the model reads the text itself: nothing but the text, the number of reads and the verdicts on
+			// the key texts is passed
+			n, _ := strconv.Atoi(tk[2])
+			priv := tk[1] == "readprivtext"
+			var bad string
+			var ok bool
+			if priv {
+				bad, ok = c18badPrivate(text)
+			} else {
+				bad, ok = c18badGroup(text)
+			}
+			if !haveText || n < 1 || (tk[3] != "0" && tk[3] != "1") {
+				break
+			}
+			if !ok || bad != tk[4] {
+				obs = "bad-text"
+				break
+			}
+			suffix := ".group.toml"
+			if priv {
+				suffix = ".private.toml"
+			}
+			file := newFile(suffix)
+			read := func() string {
+				c18ensure(file, text)
+				if priv {
+					d, _ := c18readPrivate(file)
+					return d
+				}
+				d, _, note := c18readGroup(file)
+				if note != "" {
+					cs.Fail("roster-id-not-from-keys", note)
+				}
+				return d
+			}
+			first := read()
+			if priv {
+				registryOracle("p", first)
+			} else {
+				registryOracle("g", first)
+			}
+			for i := 1; i < n; i++ {
+				if d := read(); d != first {
+					cs.Fail("parses-disagree", fmt.Sprintf("parse %d of the same file differs from parse 1:\n%s\n%s", i+1, first, d))
+					break
+				}
+			}
+			if tk[3] == "1" {
+				c18ensure(file, text)
+				if d := c18child(c, file); d != first {
+					cs.Fail("process-disagree", fmt.Sprintf("a second process (same services, registered in the opposite order) reads the same file differently:\n%s\n%s", first, d))
+				}
+			}
+			os.Remove(file)
+			obs = first
+			outs = append(outs, tk[1]+":"+c18class(first))
+		case len(tk) == 4 && tk[1] == "writetext":
+			// read the group, write it with Group.Toml(suite) / GroupToml.String, read what was written:
+			// the emitted text is compared byte for byte with the model's
+			su, _ := c20unhex(tk[2])
+			suite, err := suites.Find(su)
+			bad, ok := c18badGroup(text)
+			if err != nil || suite.String() != su || !haveText {
+				break
+			}
+			if !ok || bad != tk[3] {
+				obs = "bad-text"
+				break
+			}
+			file := newFile(".group.toml")
+			c18ensure(file, text)
+			first, g, _ := c18readGroup(file)
+			os.Remove(file)
+			if g == nil || g.Roster == nil {
+				obs = first
+				outs = append(outs, "writetext:"+c18class(first))
+				break
+			}
+			func() {
+				defer func() {
+					if r := recover(); r != nil {
+						obs = "panic"
+					}
+				}()
+				gt, err := g.Toml(suite)
+				if err != nil {
+					obs = "save-err"
+					return
+				}
+				written := gt.String()
+				file2 := newFile(".group.toml")
+				c18ensure(file2, written)
+				second, g2, note := c18readGroup(file2)
+				if strings.HasPrefix(second, "io-error") {
+					c18ensure(file2, written)
+					second, g2, note = c18readGroup(file2)
+				}
+				os.Remove(file2)
+				obs = "text=" + c18hex(written) + " " + second
+				if note != "" {
+					cs.Fail("roster-id-not-from-keys", note)
+				}
+				// oracle: same identities (an empty description becomes the placeholder), same roster id -
+				// for service names the writer can quote (no backslash: `Key.maybeQuoted` escapes only `"`)
+				if !c18sameSuites(text, suite.String()) || c18anyServiceNameHas(g, "\\") {
+					return
+				}
+				if g2 == nil || g2.Roster == nil {
+					cs.Fail("write-read-differs", "a group that was read cannot be read again after writing it: "+second+"\n"+written)
+				} else if !g2.Roster.ID.Equal(g.Roster.ID) {
+					cs.Fail("write-read-roster-id", fmt.Sprintf("roster id %s before, %s after write and read\n%s", g.Roster.ID, g2.Roster.ID, written))
+				} else if strings.Replace(first, "desc=-,", "desc="+c18hex("Description of your server")+",", -1) != second {
+					cs.Fail("write-read-differs", fmt.Sprintf("identities differ after write and read:\n%s\n%s\n%s", first, second, written))
+				}
+			}()
+			outs = append(outs, "writetext:"+c18class(obs[strings.Index(obs, " ")+1:]))
+		case len(tk) == 3 && tk[1] == "savetext":
+			// LoadCothority, then CothorityConfig.Save: the bytes written and what they read as
+			bad, ok := c18badPrivate(text)
+			if !haveText {
+				break
+			}
+			if !ok || bad != tk[2] {
+				obs = "bad-text"
+				break
+			}
+			file := newFile(".private.toml")
+			c18ensure(file, text)
+			hc, err := app.LoadCothority(file)
+			before, _ := c18readPrivate(file)
+			os.Remove(file)
+			if err != nil {
+				obs = "err"
+				break
+			}
+			file2 := newFile(".private.toml")
+			os.MkdirAll(filepath.Dir(file2), 0700)
+			if err := hc.Save(file2); err != nil {
+				os.MkdirAll(filepath.Dir(file2), 0700)
+				err = hc.Save(file2)
+				if err != nil {
+					obs = "save-err"
+					cs.Fail("write-read-differs", "saving the private configuration failed: "+err.Error())
+					break
+				}
+			}
+			written, _ := ioutil.ReadFile(file2)
+			second, _ := c18readPrivate(file2)
+			if second == "load-err" {
+				if _, err := os.Stat(file2); err != nil { // work directory swept by a concurrent run
+					ioutil.WriteFile(file2, written, 0600)
+					second, _ = c18readPrivate(file2)
+				}
+			}
+			os.Remove(file2)
+			obs = "text=" + c18hex(string(written)) + " " + second
+			if second != before {
+				cs.Fail("write-read-differs", fmt.Sprintf("private configuration differs after write and read:\n%s\n%s\n%s", before, second, written))
+			}
+			outs = append(outs, "savetext:"+c18class(second))
 		case len(tk) == 3 && tk[1] == "reload":
 			// the file written by the last resave, read again - possibly by a process (here: a registry)
 			// that knows services the saving one did not
@@ -652,6 +900,17 @@ func c18exec(c *h.Ctx, cs *h.Case) {
 		cs.Impl = append(cs.Impl, obs)
 	}
 	cs.Outcome = strings.Join(outs, ",")
+}
+
+func c18anyServiceNameHas(g *app.Group, sub string) bool {
+	for _, si := range g.Roster.List {
+		for _, sid := range si.ServiceIdentities {
+			if strings.Contains(sid.Name, sub) {
+				return true
+			}
+		}
+	}
+	return false
 }
 
 // c18filePubs: the servers' public keys in the order of the file (lower-case hex of the bytes read)
@@ -1044,6 +1303,7 @@ func c18generate(c *h.Ctx, yield func(*h.Case)) {
 	g := &c18genT{c: c, r: c.Rng}
 	pre := c18preambleOps()
 	n := 0
+	textLevel := false // the next cases are text-level ones
 	emitGroup := func(class, text string, reads int, child bool, writeSuite string) {
 		ops, ok := c18groupOps(text)
 		if !ok {
@@ -1052,6 +1312,17 @@ func c18generate(c *h.Ctx, yield func(*h.Case)) {
 		}
 		cs := &h.Case{Class: class}
 		cs.Ops = append(cs.Ops, pre...)
+		if bad, ok := c18badGroup(text); ok && (textLevel || g.r.Intn(3) == 0) {
+			// text level: the model reads the text itself (Model/C18Toml.lean)
+			cs.Class = "text:" + class
+			cs.Ops = append(cs.Ops, "c18 text "+c18hex(text), fmt.Sprintf("c18 readtext %d %s %s", reads, c18b(child), bad))
+			if writeSuite != "" {
+				cs.Ops = append(cs.Ops, fmt.Sprintf("c18 writetext %s %s", c18hex(writeSuite), bad))
+			}
+			c.Count("kind=group-text")
+			yield(cs)
+			return
+		}
 		cs.Ops = append(cs.Ops, ops...)
 		cs.Ops = append(cs.Ops, fmt.Sprintf("c18 readgroup %d %s", reads, c18b(child)))
 		if writeSuite != "" {
@@ -1070,6 +1341,13 @@ func c18generate(c *h.Ctx, yield func(*h.Case)) {
 		}
 		cs := &h.Case{Class: class}
 		cs.Ops = append(cs.Ops, pre...)
+		if bad, ok := c18badPrivate(text); ok && (textLevel || (resaveHistory == "" && g.r.Intn(3) == 0)) {
+			cs.Class = "text:" + class
+			cs.Ops = append(cs.Ops, "c18 text "+c18hex(text), fmt.Sprintf("c18 readprivtext %d %s %s", reads, c18b(child), bad), "c18 savetext "+bad)
+			c.Count("kind=private-text")
+			yield(cs)
+			return
+		}
 		cs.Ops = append(cs.Ops, "c18 text "+c18hex(text), op)
 		if resaveHistory != "" {
 			for _, hh := range strings.Split(resaveHistory, ",") {
@@ -1113,6 +1391,89 @@ func c18generate(c *h.Ctx, yield func(*h.Case)) {
 		g.forceN = 0
 		emitGroup("corpus-big-group", btxt, 30, true, "Ed25519")
 	}
+	// ---- keys that differ only in case (the decoder matches keys to fields without regard to case): a
+	// table that holds `Public` and `public` is rejected (repaired in /repo 4aac1e6 - before, both went
+	// into one field in map iteration order); a file that merely spells its keys in lower case is read
+	textLevel = true
+	{
+		k1, k2, k3 := g.key("Ed25519"), g.key("Ed25519"), g.key("Ed25519")
+		srv := func(pubKey, arr, extra string) string {
+			return fmt.Sprintf("[[%s]]\n  Address = \"tcp://127.0.0.1:7000\"\n  Suite = \"Ed25519\"\n  %s = \"%s\"\n  Description = \"one\"\n%s", arr, pubKey, k1.pub, extra)
+		}
+		emitGroup("corpus-case-variant-keys", srv("Public", "servers", fmt.Sprintf("  public = \"%s\"\n  description = \"two\"\n", k2.pub)), 50, true, "")
+		variants := []string{
+			srv("Public", "servers", fmt.Sprintf("  PUBLIC = \"%s\"\n", k2.pub)),
+			srv("Public", "servers", "  address = \"tcp://127.0.0.1:7002\"\n"),
+			srv("Public", "servers", "  url = \"http://a\"\n  URL = \"http://b\"\n"),
+			srv("Public", "servers", "  SUITE = \"P256\"\n"),
+			srv("Public", "servers", "  unknownKey = \"x\"\n  UnknownKey = \"y\"\n"),
+			srv("Public", "servers", "") + srv("Public", "Servers", ""),
+			srv("Public", "Servers", "") + srv("Public", "Servers", ""), // consistently another spelling: read
+			srv("public", "servers", ""),                              // lower-case key alone: read
+			srv("Public", "servers", fmt.Sprintf("  [servers.Services.c18svcEd]\n    Public = \"%s\"\n    Suite = \"Ed25519\"\n  [servers.services.c18aaa]\n    Public = \"%s\"\n    Suite = \"Ed25519\"\n", k2.pub, k3.pub)),
+			srv("Public", "servers", fmt.Sprintf("  [servers.Services.c18svcEd]\n    Public = \"%s\"\n    public = \"%s\"\n    Suite = \"Ed25519\"\n", k2.pub, k3.pub)),
+			srv("Public", "servers", fmt.Sprintf("  [servers.Services.c18svcEd]\n    Public = \"%s\"\n    Suite = \"Ed25519\"\n  [Servers.Services.c18aaa]\n    Public = \"%s\"\n    Suite = \"Ed25519\"\n", k2.pub, k3.pub)),
+			srv("Public", "servers", fmt.Sprintf("  [servers.Services.c18zeta]\n    Public = \"%s\"\n    Suite = \"Ed25519\"\n  [servers.Services.c18Zeta]\n    Public = \"%s\"\n    Suite = \"Ed25519\"\n", k2.pub, k3.pub)), // map keys: compared exactly, read
+			srv("Public", "servers", fmt.Sprintf("  [servers.services.c18svcEd]\n    Public = \"%s\"\n    Suite = \"Ed25519\"\n", k2.pub)) +
+				srv("Public", "servers", fmt.Sprintf("  [servers.Services.c18svcEd]\n    Public = \"%s\"\n    Suite = \"Ed25519\"\n", k3.pub)), // another spelling in another element: read
+			srv("Public", "servers", "  Public = \""+k2.pub+"\"\n"), // the same key twice: a TOML error
+		}
+		for _, v := range variants {
+			emitGroup("case-variant-keys:group", v, 30, false, "")
+		}
+		kp := g.key("Ed25519")
+		prv := func(extra string) string {
+			return fmt.Sprintf("Suite = \"Ed25519\"\nPublic = \"%s\"\nPrivate = \"%s\"\nAddress = \"tls://127.0.0.1:7770\"\nDescription = \"d\"\n%s", kp.pub, kp.priv, extra)
+		}
+		emitPrivate("corpus-case-variant-keys", prv(fmt.Sprintf("private = \"%s\"\npublic = \"%s\"\n", k2.priv, k2.pub)), 50, true)
+		for _, v := range []string{
+			prv("address = \"tls://127.0.0.1:7772\"\n"),
+			prv("suite = \"P256\"\n"),
+			prv("websockettlscertificatekey = \"a\"\nWebSocketTLSCertificateKey = \"b\"\n"),
+			prv(fmt.Sprintf("[Services.c18svcEd]\n  Public = \"%s\"\n  Private = \"%s\"\n  Suite = \"Ed25519\"\n[services.c18aaa]\n  Public = \"%s\"\n  Private = \"%s\"\n  Suite = \"Ed25519\"\n", k2.pub, k2.priv, k3.pub, k3.priv)),
+			prv(fmt.Sprintf("[Services.c18svcEd]\n  Public = \"%s\"\n  Private = \"%s\"\n  private = \"%s\"\n  Suite = \"Ed25519\"\n", k2.pub, k2.priv, k3.priv)),
+			prv(fmt.Sprintf("[services.c18svcEd]\n  public = \"%s\"\n  private = \"%s\"\n  suite = \"Ed25519\"\n", k2.pub, k2.priv)), // all lower case: read
+			strings.ToLower(prv("")), // every key (and the hex) in lower case: read - but the suite name is looked up without regard to case
+		} {
+			emitPrivate("case-variant-keys:private", v, 30, false)
+		}
+	}
+	// ---- strings the writer has to escape: descriptions, URLs and addresses with quotes, backslashes, new
+	// lines, tabs, control characters, non-ASCII text - read, written with Group.Toml / Save, read again
+	{
+		pool := []string{"", "plain", "with \"quotes\"", "back\\slash", "trailing backslash\\", "\\\"", "new\nline", "cr\rlf\r\n", "tab\there", "\x01\x02\x1f control", "del\x7f",
+			"ünïcödé 日本語", "emoji 🎉 done", "# not a comment", "key = \"value\"", "[[servers]]", "'single'", "\\u0041 is not an escape here", "\\n", " leading and trailing ",
+			strings.Repeat("long ", 200), "\"", "\\", "\n", "a\\\\b\\", "percent %s %d"}
+		for i := 0; i < c.Pick(60, 300); i++ {
+			var sb strings.Builder
+			su := "Ed25519"
+			if g.r.Intn(5) == 0 {
+				su = c18suiteNames[g.r.Intn(len(c18suiteNames))]
+			}
+			for j := 0; j < 1+g.r.Intn(3); j++ {
+				fields := []string{"  Address = " + c18quote(g.pick("tcp://127.0.0.1:7000", "tls://h:1", pool[g.r.Intn(len(pool))])), "  Public = " + c18quote(g.key(su).pub),
+					"  Suite = " + c18quote(su), "  Description = " + c18quote(pool[g.r.Intn(len(pool))])}
+				if g.r.Intn(2) == 0 {
+					fields = append(fields, "  URL = "+c18quote(pool[g.r.Intn(len(pool))]))
+				}
+				g.r.Shuffle(len(fields), func(a, b int) { fields[a], fields[b] = fields[b], fields[a] })
+				sb.WriteString("[[servers]]\n" + strings.Join(fields, "\n") + "\n")
+				if g.r.Intn(3) == 0 {
+					sb.WriteString(fmt.Sprintf("  [servers.Services.c18svcEd]\n    Public = %s\n    Suite = \"Ed25519\"\n", c18quote(g.key("Ed25519").pub)))
+				}
+			}
+			emitGroup("string-escapes:group", sb.String(), 3, i%10 == 0, su)
+			kp := g.key("Ed25519")
+			fields := []string{"Public = " + c18quote(kp.pub), "Private = " + c18quote(kp.priv), "Suite = \"Ed25519\"", "Address = " + c18quote(g.pick("tcp://127.0.0.1:7000", "tls://h:1", pool[g.r.Intn(len(pool))])),
+				"Description = " + c18quote(pool[g.r.Intn(len(pool))]), "URL = " + c18quote(pool[g.r.Intn(len(pool))]), "ListenAddress = " + c18quote(pool[g.r.Intn(len(pool))])}
+			if g.r.Intn(2) == 0 {
+				fields = append(fields, "WebSocketTLSCertificate = "+c18quote(pool[g.r.Intn(len(pool))]), "WebSocketTLSCertificateKey = "+c18quote(pool[g.r.Intn(len(pool))]))
+			}
+			g.r.Shuffle(len(fields), func(a, b int) { fields[a], fields[b] = fields[b], fields[a] })
+			emitPrivate("string-escapes:private", strings.Join(fields, "\n")+"\n", 3, i%10 == 0)
+		}
+	}
+	textLevel = false
 	// ---- registry histories: services the text does not mention are registered / unregistered between
 	// two reads of the same text (group and private); the text's own services were registered in one
 	// batch with them, with suites that differ from their neighbours'
